@@ -3,7 +3,7 @@
 pid=$1; patch=$2; tier=${3:-quick}
 cd /repo || exit 9
 git diff --quiet || { echo "repo not clean"; exit 9; }
-trap 'git -C /repo checkout -- . ; rm -rf /dev/shm/seed-evid-$$' EXIT INT TERM HUP
+trap 'git -C /repo checkout -- . ; rm -rf /dev/shm/seed-evid-$$ /dev/shm/seed-replay-$$' EXIT INT TERM HUP
 git apply "$patch" || { echo "patch does not apply"; exit 9; }
 VF_EVIDENCE_DIR=/dev/shm/seed-evid-$$ VF_REPLAY_DIR=/dev/shm/seed-replay-$$ timeout ${SEEDTEST_TIMEOUT:-1500} /verif/check $pid --tier $tier
 rc=$?
